@@ -16,11 +16,13 @@ func VerifC37_window() {
 	red.nowMs = t00
 	sc := &verifScriptClient{r: red}
 	var window time.Duration
-	switch verifChoose(3) {
+	switch verifChoose(4) {
 	case 0:
 		window = time.Second
 	case 1:
 		window = 2001 * time.Millisecond // odd: the lock lasts floor(ms/2)
+	case 2:
+		window = 1500 * time.Millisecond // not a whole number of seconds
 	default:
 		window = time.Hour
 	}
